@@ -47,6 +47,18 @@ def run(prop, tier, seed_, replay=None):
         from . import c09
 
         return c09.run(tier, seed_)
+    if prop == "C16":
+        from . import c16
+
+        return c16.run(tier, seed_)
+    if prop == "C17":
+        from . import c17
+
+        return c17.run(tier, seed_)
+    if prop == "C20":
+        from . import c20
+
+        return c20.run(tier, seed_)
     if prop == "C19":
         from . import c19
 
